@@ -37,7 +37,15 @@ Vis(p, it) ==
                          IN  f[Len(p.sites)]
     [] p.k = "mask"   -> IF it.flag = 1 THEN Vis(p.subs[1], it.subs[1]) ELSE EmptyF
     [] p.k = "switch" -> Vis(p.subs[it.flag], it.subs[it.flag])        \* flag holds the (1-based, clamped) selected branch
+    [] p.k \in {"vmap", "repeat"} ->
+                         LET f[i \in 0..p.n] == IF i = 0 THEN EmptyF ELSE f[i - 1] @@ PrefixMap(<<IdxStr(i - 1)>>, Vis(p.subs[1], it.subs[i]))
+                         IN  f[p.n]
 AbsT(p, it) == [args |-> it.args, choices |-> Vis(p, it), score |-> it.score, ret |-> it.ret]
+
+ElemArgs(p, args, i) == IF p.k = "repeat" THEN args
+                        ELSE [j \in 1..Len(args) |-> CASE p.x[j] = 1 -> Unstack(args[j], i)
+                                                         [] p.x[j] = 2 -> Vc([r \in 1..Len(args[j].k) |-> args[j].k[r].k[i]])
+                                                         [] OTHER -> args[j]]
 
 RECURSIVE OSim(_, _, _)
 \* simulate with the sampler pick : Path -> value (total over the program's addresses, hidden ones included)
@@ -60,6 +68,10 @@ OSim(p, args, pick) ==
          LET j  == Clamp(args[1].i, Len(p.subs)) + 1
              rs == [b \in 1..Len(p.subs) |-> OSim(p.subs[b], args[b + 1].k, pick)]     \* placeholders for the others
          IN  IT("switch", args, 0, rs[j].score, rs[j].ret, rs, j)
+    [] p.k \in {"vmap", "repeat"} ->                                                      \* n independent element calls
+         LET rs == [i \in 1..p.n |-> OSim(p.subs[1], ElemArgs(p, args, i), SubMap(<<IdxStr(i - 1)>>, pick))]
+             sc[i \in 0..p.n] == IF i = 0 THEN 0 ELSE sc[i - 1] + rs[i].score
+         IN  IT(p.k, args, 0, sc[p.n], Stack([i \in 1..p.n |-> rs[i].ret]), rs, 0)
 
 OR(it, w, disc, rt) == [it |-> it, w |-> w, disc |-> disc, rt |-> rt]
 
@@ -108,6 +120,15 @@ OUpd(p, it, args2, targs, cons, pick) ==
                   r == OUpd(p.subs[j], fresh, args2[j + 1].k, [i \in 1..Len(args2[j + 1].k) |-> FALSE], cons, pick)
               IN  OR(IT("switch", args2, 0, r.it.score, r.it.ret, [it.subs EXCEPT ![j] = r.it], j), r.it.score - it.score,
                      Vis(p, it), TRUE)
+
+    [] p.k \in {"vmap", "repeat"} ->       \* Vmap.edit_choice_map: the per-index sub-constraint to element i
+         LET rs == [i \in 1..p.n |-> OUpd(p.subs[1], it.subs[i], ElemArgs(p, args2, i), targs,
+                                           SubMap(<<IdxStr(i - 1)>>, cons), SubMap(<<IdxStr(i - 1)>>, pick))]
+             acc[i \in 0..p.n] == IF i = 0 THEN [w |-> 0, sc |-> 0, disc |-> EmptyF]
+                                  ELSE [w |-> acc[i - 1].w + rs[i].w, sc |-> acc[i - 1].sc + rs[i].it.score,
+                                        disc |-> acc[i - 1].disc @@ PrefixMap(<<IdxStr(i - 1)>>, rs[i].disc)]
+         IN  OR(IT(p.k, args2, 0, acc[p.n].sc, Stack([i \in 1..p.n |-> rs[i].it.ret]), [i \in 1..p.n |-> rs[i].it], 0),
+                acc[p.n].w, acc[p.n].disc, TRUE)
 
 ---------------------------------------------------------------------------
 VARIABLES pid, cur, old, last
